@@ -5,6 +5,7 @@ import LanceModel.C43.SetIdLemmas
 import LanceModel.C43.MergeLemmas
 import LanceModel.C43.InterLeftLemmas
 import LanceModel.C43.ExcludePathsLemmas
+import LanceModel.C43.MergePathsLemmas
 /-
 C43 property theorems.  Statement (properties.jsonl): schema projection by names or ids, exclusion, intersection and
 merging, and the union/subtract/intersect operations on projections, behave as the corresponding set operations on field
@@ -321,6 +322,27 @@ theorem merge_extends (s o r : Schema) (h : Schema.merge s o = .ok r) : SubL s r
 
 example : (match Schema.merge (exS.projectByIds [1] false) (exS.projectByIds [2, 6] false) with
     | .ok r => idsL r | .error _ => []) = [0, 1, -1, -1, -1, -1] := by rfl
+
+/-- `Field::merge` (the recursive core of `Schema::merge`, applied to each pair of same-named top-level fields) adds
+    exactly the name paths of the other field: for well-shaped operands (primitive fields childless, every list has
+    one element field with the same fixed name) a successful merge yields a well-shaped field with the name of `self`
+    whose name paths are those of `self` or of `other`. By `merge_extends` the fields of `self` keep ids/attributes. -/
+theorem merge_field_paths (itemN : List Char) (self o r : Field) (hs : self.shapeOk itemN = true)
+    (ho : o.shapeOk itemN = true) (hn : self.name = o.name) (h : self.mergeWith o = .ok r) :
+    r.shapeOk itemN = true ∧ r.name = self.name ∧
+      ∀ p, p ∈ r.namePaths ↔ p ∈ self.namePaths ∨ p ∈ o.namePaths :=
+  Field.mergeWith_paths itemN o self r hs ho hn h
+
+/-- the struct-children loop of `Field::merge`: union of the name paths of both child lists -/
+theorem merge_children_paths (itemN : List Char) (cs ocs r : List Field) (hs : shapeOkL itemN cs = true)
+    (ho : shapeOkL itemN ocs = true) (h : mergeChildren cs ocs = .ok r) :
+    shapeOkL itemN r = true ∧ ∀ p, p ∈ namePathsL r ↔ p ∈ namePathsL cs ∨ p ∈ namePathsL ocs :=
+  mergeChildren_paths itemN ocs cs r hs ho h
+
+example : shapeOkL ['i'] exS = true := by decide
+example : (match mergeChildren (exS.projectByIds [1] false) (resetIdL (exS.projectByIds [2, 6] false)) with
+    | .ok r => namePathsL r | .error _ => [])
+    = [[['a']], [['a'], ['b', '.', 'c']], [['a'], ['`']], [['l']], [['l'], ['i']], [['l'], ['i'], ['y']]] := by rfl
 
 /-! ## set_field_id -/
 
